@@ -44,7 +44,7 @@ def gen_valid(rng, root):
     doc = {"description": {"name": rng.choice(["study", "my study", "s-1"]),
                            "description": rng.choice(["generated", "A study."])}}
     if rng.random() < 0.15:
-        doc["description"]["extra"] = "descriptions may carry other keys"
+        doc["description"]["extra"] = rng.choice(["descriptions may carry other keys", datetime.date(2024, 5, 17)])
     env = {}
     variables = {}
     if rng.random() < 0.8:
@@ -116,7 +116,8 @@ def gen_valid(rng, root):
     if params:
         gp = {}
         for k in params:
-            vals = [rng.choice([1, 2, 4, "a", 0.5, "x y"]) for _ in range(rows)]
+            vals = [rng.choice([1, 2, 4, "a", 0.5, "x y", True, None, datetime.date(2024, 1, 1 + 0)])
+                    if rng.random() < 0.15 else rng.choice([1, 2, 4, "a", 0.5, "x y"]) for _ in range(rows)]
             gp[k] = {"values": vals, "label": rng.choice(["%s.%%%%" % k, "%%"])}
         doc["global.parameters"] = gp
     return doc
@@ -125,7 +126,11 @@ def gen_valid(rng, root):
 # --------------------------------------------------------------------------
 # structural mutation
 
-RETYPES = [None, True, False, 0, 5, -1, 2.5, "", "text", "$(X)", [], ["x"], {}, {"k": "v"}]
+import datetime
+
+# (the last three: what YAML itself makes of `2024-01-01`, of a timestamp and of `!!binary`)
+RETYPES = [None, True, False, 0, 5, -1, 2.5, "", "text", "$(X)", [], ["x"], {}, {"k": "v"},
+           datetime.date(2024, 1, 1), datetime.datetime(2024, 1, 1, 12, 30), b"\x00bin"]
 
 
 def paths_of(node, prefix=()):
@@ -258,7 +263,8 @@ def _mutate(rng, doc):
             env.setdefault("dependencies", {})["git"] = [dict(git_item)]
         elif op == "odd-var-name":
             # names outside \w+ are names too; their values obey the same rules
-            env.setdefault("variables", {})[rng.choice(["RUN-DIR", "run.dir", "RUN DIR", "N+1", "CODE/V"])] = \
+            env.setdefault("variables", {})[rng.choice(["RUN-DIR", "run.dir", "RUN DIR", "N+1", "CODE/V", "a\\d",
+                                                        "x\\1", "g\\g<0>", "back\\"])] = \
                 copy.deepcopy(rng.choice([None, "", ["x"], {"k": "v"}, True, "ok", 3]))
         elif op == "empty-var-name":
             env.setdefault("variables", {})[""] = "v"
@@ -347,10 +353,12 @@ def run_pipeline(doc, root, stage=True):
             try:
                 study.setup_workspace()
                 study.configure_study()
-                has_git = bool(environment.dependencies) and any(
-                    type(dep).__name__ == "GitDependency" for dep in environment.dependencies.values())
-                if not has_git:
-                    study.setup_environment()
+                # a repository cannot be cloned here (no network): the git dependencies are taken out of the
+                # environment before it is set up, the rest of the study is staged as it is
+                for name_, dep in list(environment.dependencies.items()):
+                    if type(dep).__name__ == "GitDependency":
+                        environment.remove(name_)
+                study.setup_environment()
                 _, dag = study.stage()
                 info["instances"] = len(dag.values) - 1
                 info["stage"] = "ok"
